@@ -83,4 +83,19 @@ CHECKS = {
          "(dimensionless fields 1e-8; Solution.current_density in A/m between systems and against the SI unit model 1e-9). For every triangle of every mesh, every (length, field) unit pair and 4 field values the gauge phase "
          "around the triangle must equal 2 pi flux / Phi0 (1e-9; observed 3e-15), also through the time-dependent update path."),
    note="same Mesh object shared by the restatements; SI constants from scipy.constants; unit names outside {um,nm,mm}x{mT,uT,T}x{uA,nA,mA} not explored"),
+ "C16": dict(
+   engine="mc-core", category="model_checking", design_ref="DESIGN.md 3/C16",
+   technique="exhaustive enumeration of expression trees (programs) up to a size bound, each executed on the real Parameter classes and compared with a recursive reference evaluator",
+   text=("Every expression tree with <= 2 operators (quick: 9.8e3; thorough: all trees of depth <= 3 with <= 3 operators, 4.3e5) over {+,-,*,/,**} and leaves {2-D, 3-D, time-dependent 2-D/3-D parameters, int, float}, plus all 1-/2-operator trees over "
+         "closure-distinguished leaves, is built through the overloaded operators and checked against RM-param: value at scalar and array arguments with and without t (bitwise), at a sequence of times on the same object (caches), "
+         "time_dependent flag, equality of a rebuilt copy and inequality of every single-node mutation, cache clearing, pickle round trip; ill-typed trees must fail in both. Field expressions over ConstantField/LinearRamp/numbers are handed to "
+         "tdgl.solve and must give frames bitwise equal to a hand-written plain Parameter."),
+   note="leaf functions fixed (values in [0.5,3]); depth-3 chains use 3 representative outermost leaves; equality of closure-distinguished leaves is not decided (library compares bytecode and kwargs)"),
+ "C14": dict(
+   engine="mc-core", category="exploration", design_ref="DESIGN.md 3/C14",
+   technique="exhaustive products of object compositions, option-field value classes, expression trees and storage routes, each round-tripped through the real (de)serialisers and compared with a strict structural comparer plus behavioural probes",
+   text=("All 8 device compositions x mesh present/absent x save_mesh x 4 routes (path, group, pickle, cloudpickle); full vs compressed vs recomputed meshes; every SolverOptions field at default / non-default / None attached to a stored run; "
+         "every expression tree with <= 1 (quick) / <= 2 (thorough) operators through pickle and through Solution.to_hdf5/from_hdf5; 4-6 physics inputs x {on disk, memory only} with every recorded step, the dynamics and the reloaded callables compared. "
+         "Comparison is strict (bitwise arrays, None only equal to None, polygons by name) and includes the library's own == and behaviour (terminal_info, contains_points lattice, parameter values and flags)."),
+   note="gpu / umfpack / pardiso / cupy option values cannot be validated in this sandbox; Solution.to_hdf5(save_mesh=False) files are not self-contained and are outside the alphabet"),
 }
